@@ -1,11 +1,9 @@
 /-
   Lemmas for the import walk (RattrModel/ImportWalk.lean): the invariant `Inv` — every logged call of
   `derive_absolute_module_name` / `compile_root_context` ran under the current file it belongs to, and
-  the log is one run through one cache — is preserved by every step of the walk.  The "current file =
-  compiled file" clauses are conditional on `LinkFree P` (no star-imported file behind a symbolic link
-  below its search root): the star-expansion enters a file under its fully resolved path (`starCur`;
-  Props/C13 `C13_cex_star_symlink`); the cache clauses and "the base is the name derived from the
-  current file" hold for every project.
+  the log is one run through one cache — is preserved by every step of the walk, provided the
+  star-expansion enters a star-imported file under its path as spelled (`Spelled sc`: true of the
+  current code, false of the code before 58a9012 behind a symbolic link — Props/C13).
 -/
 import RattrModel.ImportWalk
 
@@ -32,15 +30,15 @@ theorem runCalls_append (m : Memo) (cs : List RelCall) (c : RelCall) :
 /-- what is true of one logged call of `derive_absolute_module_name` -/
 structure RecGood (P : Proj) (r : Rec) : Prop where
   /-- the current file is the file whose statement is being registered -/
-  file  : LinkFree P → r.cur.path = r.file
-  stem  : LinkFree P → r.cur.stem = r.stem
+  file  : r.cur.path = r.file
+  stem  : r.cur.stem = r.stem
   init  : r.call.isInit = r.cur.isInit
   level : 1 ≤ r.call.level
   base  : deriveModuleNameFromPath P.env (curComps P r.cur) = some r.call.base
 
 structure Inv (P : Proj) (s : St) : Prop where
   recs    : ∀ r, r ∈ s.trace → RecGood P r
-  evs     : ∀ e, e ∈ s.events → LinkFree P → e.cur.path = e.file.path ∧ e.cur.stem = e.file.stem
+  evs     : ∀ e, e ∈ s.events → e.cur.path = e.file.path ∧ e.cur.stem = e.file.stem
   memo    : s.memo = memoAfter [] (s.trace.map (·.call))
   results : s.trace.map (·.result) = runCalls [] (s.trace.map (·.call))
 
@@ -115,7 +113,7 @@ theorem addResolved_good (P : Proj) (c : Cur) (line : Nat) (st : Bool) (a : Dott
 
 /-- the one step that touches the cache and the log -/
 theorem resolveRel_inv (P : Proj) (f : File) (c : Cur) (base : Dotted) (module : Option Dotted) (level : Nat)
-    (s : St) (h : Inv P s) (hp : LinkFree P → c.path = f.path) (hst : LinkFree P → c.stem = f.stem) (hl : 1 ≤ level)
+    (s : St) (h : Inv P s) (hp : c.path = f.path) (hst : c.stem = f.stem) (hl : 1 ≤ level)
     (hb : deriveModuleNameFromPath P.env (curComps P c) = some base) :
     Inv P (resolveRel f c base module level s).2 ∧ (resolveRel f c base module level s).2.cur = s.cur := by
   refine ⟨?_, rfl⟩
@@ -148,7 +146,7 @@ theorem starWarn_inv {P : Proj} {s : St} (h : Inv P s) (st : Bool) (c : Cur) (li
 
 theorem visitRel_good (P : Proj) (f : File) (c : Cur) (line level : Nat) (module : Option Dotted)
     (names : List (Str × Option Str)) (st : Bool) (t : Tab) (s : St)
-    (h : Inv P s) (hc : s.cur = some c) (hp : LinkFree P → c.path = f.path) (hst : LinkFree P → c.stem = f.stem) (hl : 1 ≤ level) :
+    (h : Inv P s) (hc : s.cur = some c) (hp : c.path = f.path) (hst : c.stem = f.stem) (hl : 1 ≤ level) :
     Good P c (visitRel P f c line level module names st t s) := by
   unfold visitRel
   split
@@ -163,7 +161,7 @@ theorem visitRel_good (P : Proj) (f : File) (c : Cur) (line level : Nat) (module
 
 theorem visitFrom_good (P : Proj) (f : File) (c : Cur) (line level : Nat) (module : Option Dotted)
     (names : List (Str × Option Str)) (t : Tab) (s : St)
-    (h : Inv P s) (hc : s.cur = some c) (hp : LinkFree P → c.path = f.path) (hst : LinkFree P → c.stem = f.stem) :
+    (h : Inv P s) (hc : s.cur = some c) (hp : c.path = f.path) (hst : c.stem = f.stem) :
     Good P c (visitFrom P f c line level module names t s) := by
   unfold visitFrom
   simp only
@@ -182,7 +180,7 @@ theorem visitFrom_good (P : Proj) (f : File) (c : Cur) (line level : Nat) (modul
       · exact addResolved_good P c line _ _ names t _ hw.1 (by rw [hw.2, hc])
 
 theorem register_good (P : Proj) (f : File) (c : Cur) (stmt : Stmt) (t : Tab) (s : St)
-    (h : Inv P s) (hc : s.cur = some c) (hp : LinkFree P → c.path = f.path) (hst : LinkFree P → c.stem = f.stem) :
+    (h : Inv P s) (hc : s.cur = some c) (hp : c.path = f.path) (hst : c.stem = f.stem) :
     Good P c (register P f stmt t s) := by
   unfold register
   rw [hc]
@@ -192,7 +190,7 @@ theorem register_good (P : Proj) (f : File) (c : Cur) (stmt : Stmt) (t : Tab) (s
   | from_ line level m names => exact visitFrom_good P f c line level m names t s h hc hp hst
 
 theorem registerAll_good (P : Proj) (f : File) (c : Cur) (stmts : List Stmt) (t : Tab) (s : St)
-    (h : Inv P s) (hc : s.cur = some c) (hp : LinkFree P → c.path = f.path) (hst : LinkFree P → c.stem = f.stem) :
+    (h : Inv P s) (hc : s.cur = some c) (hp : c.path = f.path) (hst : c.stem = f.stem) :
     Good P c (registerAll P f stmts t s) := by
   induction stmts generalizing t s with
   | nil => exact Good.ok h hc
@@ -207,7 +205,7 @@ theorem registerAll_good (P : Proj) (f : File) (c : Cur) (stmts : List Stmt) (t 
 /-- a completed `compile_root_context` is logged with a current file that IS the compiled file,
 provided its caller set it so -/
 theorem compileRoot_good (P : Proj) (f : File) (c : Cur) (s : St)
-    (h : Inv P s) (hc : s.cur = some c) (hp : LinkFree P → c.path = f.path) (hst : LinkFree P → c.stem = f.stem) :
+    (h : Inv P s) (hc : s.cur = some c) (hp : c.path = f.path) (hst : c.stem = f.stem) :
     Good P c (compileRoot P f s) := by
   unfold compileRoot
   have h1 := registerAll_good P f c f.stmts [] s h hc hp hst
@@ -223,7 +221,7 @@ theorem compileRoot_good (P : Proj) (f : File) (c : Cur) (s : St)
       simp only [List.mem_append, List.mem_singleton] at hmem
       rcases hmem with hmem | hmem
       · exact hs'.evs e hmem
-      · subst hmem; exact fun hlf => ⟨hp hlf, hst hlf⟩,
+      · subst hmem; exact ⟨hp, hst⟩,
     hs'.memo, hs'.results⟩
 
 /-! ### `enter_file` and the three call sites -/
@@ -245,10 +243,10 @@ theorem curOf_stem (abs : Bool) (f : File) : (curOf abs f).stem = f.stem := rfl
 
 theorem enter_compile_inv (P : Proj) (abs : Bool) (g : File) (s : St) (h : Inv P s) :
     Inv P (enter (curOf abs g) (compileRoot P g) s).st :=
-  enter_inv P _ _ s (compileRoot_good P g (curOf abs g) _ (h.setCur _) rfl (fun _ => rfl) (fun _ => rfl)).1
+  enter_inv P _ _ s (compileRoot_good P g (curOf abs g) _ (h.setCur _) rfl rfl rfl).1
 
-theorem expandLoop_inv (P : Proj) (fuel : Nat) (q : List Sym) (seen : List Path) (t : Tab) (s : St)
-    (h : Inv P s) : Inv P (expandLoop P fuel q seen t s).st := by
+theorem expandLoop_inv (P : Proj) (sc : StarCur) (hsc : Spelled sc) (fuel : Nat) (q : List Sym) (seen : List Path)
+    (t : Tab) (s : St) (h : Inv P s) : Inv P (expandLoop P sc fuel q seen t s).st := by
   induction fuel generalizing q seen t s with
   | zero =>
     cases q with
@@ -267,19 +265,19 @@ theorem expandLoop_inv (P : Proj) (fuel : Nat) (q : List Sym) (seen : List Path)
       · rename_i g _
         split
         · exact ih _ _ _ _ h
-        · have h1 : Inv P (enter (starCur P g) (compileRoot P g) s).st :=
-            enter_inv P _ _ s (compileRoot_good P g (starCur P g) _ (h.setCur _) rfl
-              (fun hlf => by rw [hlf g]; rfl) (fun hlf => by rw [hlf g]; rfl)).1
+        · have h1 : Inv P (enter (sc g) (compileRoot P g) s).st :=
+            enter_inv P _ _ s (compileRoot_good P g (sc g) _ (h.setCur _) rfl (hsc g).1 (hsc g).2).1
           refine inv_bind h1 ?_
           intro t' s' he
           have hs' : Inv P s' := by rw [he] at h1; exact h1
           exact ih _ _ _ _ hs'
 
-theorem expand_inv (P : Proj) (fuel : Nat) (t : Tab) (s : St) (h : Inv P s) : Inv P (expand P fuel t s).st :=
-  expandLoop_inv P fuel _ _ t s h
+theorem expand_inv (P : Proj) (sc : StarCur) (hsc : Spelled sc) (fuel : Nat) (t : Tab) (s : St) (h : Inv P s) :
+    Inv P (expand P sc fuel t s).st :=
+  expandLoop_inv P sc hsc fuel _ _ t s h
 
-theorem followLoop_inv (P : Proj) (xfuel fuel : Nat) (q : List Sym) (seen : List Path) (irs : Irs) (s : St)
-    (h : Inv P s) : Inv P (followLoop P xfuel fuel q seen irs s).st := by
+theorem followLoop_inv (P : Proj) (sc : StarCur) (hsc : Spelled sc) (xfuel fuel : Nat) (q : List Sym) (seen : List Path)
+    (irs : Irs) (s : St) (h : Inv P s) : Inv P (followLoop P sc xfuel fuel q seen irs s).st := by
   induction fuel generalizing q seen irs s with
   | zero =>
     cases q with
@@ -300,13 +298,13 @@ theorem followLoop_inv (P : Proj) (xfuel fuel : Nat) (q : List Sym) (seen : List
             · exact h
             · rename_i g _
               have h1 : Inv P (enter (curOf true g)
-                  (fun s => (compileRoot P g s).bind fun t s => expand P xfuel t s) s).st := by
+                  (fun s => (compileRoot P g s).bind fun t s => expand P sc xfuel t s) s).st := by
                 apply enter_inv
-                have hc := compileRoot_good P g (curOf true g) _ (h.setCur (some (curOf true g))) rfl (fun _ => rfl) (fun _ => rfl)
+                have hc := compileRoot_good P g (curOf true g) _ (h.setCur (some (curOf true g))) rfl rfl rfl
                 refine inv_bind hc.1 ?_
                 intro t' s' he
                 have hs' : Inv P s' := by have := hc.1; rw [he] at this; exact this
-                exact expand_inv P xfuel t' s' hs'
+                exact expand_inv P sc hsc xfuel t' s' hs'
               refine inv_bind h1 ?_
               intro t' s' he
               have hs' : Inv P s' := by rw [he] at h1; exact h1
@@ -314,22 +312,28 @@ theorem followLoop_inv (P : Proj) (xfuel fuel : Nat) (q : List Sym) (seen : List
         · exact h
 
 /-- the whole walk keeps the invariant -/
-theorem run_inv (P : Proj) (fuel : Nat) (tgt : File) : Inv P (run P fuel tgt).st := by
-  unfold run
+theorem runWith_inv (P : Proj) (sc : StarCur) (hsc : Spelled sc) (fuel : Nat) (tgt : File) :
+    Inv P (runWith P sc fuel tgt).st := by
+  unfold runWith
   apply enter_inv
   have hc := compileRoot_good P tgt (curOf false tgt) { ({} : St) with cur := some (curOf false tgt) }
-    ((Inv.init P).setCur _) rfl (fun _ => rfl) (fun _ => rfl)
+    ((Inv.init P).setCur _) rfl rfl rfl
   refine inv_bind hc.1 ?_
   intro t s he
   have hs : Inv P s := by have := hc.1; rw [he] at this; exact this
-  have h2 := expand_inv P fuel t s hs
+  have h2 := expand_inv P sc hsc fuel t s hs
   refine inv_bind h2 ?_
   intro t2 s2 he2
   have hs2 : Inv P s2 := by rw [he2] at h2; exact h2
-  have h3 := followLoop_inv P fuel fuel t2.imports [] [] s2 hs2
+  have h3 := followLoop_inv P sc hsc fuel fuel t2.imports [] [] s2 hs2
   refine inv_bind h3 ?_
   intro irs s3 he3
   rw [he3] at h3
   exact h3
+
+/-- the whole walk of the current code keeps the invariant, for every project (links included: since
+58a9012 every file is entered under its path as spelled below the search root) -/
+theorem run_inv (P : Proj) (fuel : Nat) (tgt : File) : Inv P (run P fuel tgt).st :=
+  runWith_inv P (curOf true) spelled_curOf fuel tgt
 
 end Rattr.Walk
